@@ -68,8 +68,14 @@ func extraScenarios(pb int) []*explore.Scenario {
 		n := kademlia.NewDHTNode(kademlia.DHTNodeParams{LocalID: p2p.PeerID{1}, PeerCacheSize: 300, DataCacheSize: 4})
 		vrt.Go("add", func() { n.AddPeer(p2p.PeerID{0x80}, []byte("a")); n.AddPeer(p2p.PeerID{0x40}, []byte("b")) })
 		vrt.Go("list", func() { n.ListNodeInfos([]byte{0x80}, 3); n.HasPeer(p2p.PeerID{0x80}); n.Count() })
-		vrt.Go("put", func() { n.HandlePut(p2p.PeerID{9}, kademlia.PutReq{Key: []byte{0x11}, Value: []byte("v"), TTLms: 1000}); n.WouldAdd([]byte{0x12}) })
-		vrt.Go("get", func() { n.HandleGet(p2p.PeerID{9}, kademlia.GetReq{Key: []byte{0x11}}); n.HandleFindNode(p2p.PeerID{9}, kademlia.FindNodeReq{Target: p2p.PeerID{0x80}, Limit: 3}) })
+		vrt.Go("put", func() {
+			n.HandlePut(p2p.PeerID{9}, kademlia.PutReq{Key: []byte{0x11}, Value: []byte("v"), TTLms: 1000})
+			n.WouldAdd([]byte{0x12})
+		})
+		vrt.Go("get", func() {
+			n.HandleGet(p2p.PeerID{9}, kademlia.GetReq{Key: []byte{0x11}})
+			n.HandleFindNode(p2p.PeerID{9}, kademlia.FindNodeReq{Target: p2p.PeerID{0x80}, Limit: 3})
+		})
 	}))
 	// bare hubs and queue
 	out = append(out, simple("tellhub-concurrent", pb, func(x *vrt.Exec) {
@@ -222,7 +228,11 @@ func extraScenarios(pb int) []*explore.Scenario {
 		ctx, cf := hx.WithCancel(bg)
 		dst := b.LocalAddrs()[0]
 
-		vrt.Go("recv", func() { b.Receive(ctx, func(m p2p.Message[p2pkeswarm.Addr[Addr]]) { p2p.LookupPublicKeyInHandler[p2pkeswarm.Addr[Addr], x509.PublicKey](b, m.Src) }) })
+		vrt.Go("recv", func() {
+			b.Receive(ctx, func(m p2p.Message[p2pkeswarm.Addr[Addr]]) {
+				p2p.LookupPublicKeyInHandler[p2pkeswarm.Addr[Addr], x509.PublicKey](b, m.Src)
+			})
+		})
 		x.NoBranch = true
 		a.Tell(ctx, dst, p2p.IOVec{[]byte("warm")})
 		x.Settle()
